@@ -207,8 +207,12 @@ class Ctx:
             "wall_s": round(time.time() - self.t0, 2),
             "violations": violations,
         }
-        os.makedirs(os.path.join(ROOT, "evidence"), exist_ok=True)
-        tmp = os.path.join(ROOT, "evidence", self.pid + ".json.tmp")
+        # runs against a scratch copy (VERIF_REPO set: seeded-change evaluation) must not overwrite the evidence of /repo
+        evdir = os.environ.get("VERIF_EVIDENCE_DIR") or (os.path.join(ROOT, "evidence") if os.path.realpath(REPO) == "/repo"
+                                                         else os.path.join(ROOT, "evidence", ".scratch"))
+        ev["coverage"]["repo"] = REPO
+        os.makedirs(evdir, exist_ok=True)
+        tmp = os.path.join(evdir, self.pid + ".json.tmp")
         with open(tmp, "w") as f:
             json.dump(ev, f, indent=1, default=str)
-        os.replace(tmp, os.path.join(ROOT, "evidence", self.pid + ".json"))
+        os.replace(tmp, os.path.join(evdir, self.pid + ".json"))
